@@ -309,7 +309,7 @@ impl Check for C36 {
     fn cases(&self, tier: Tier) -> u32 {
         match tier {
             Tier::Quick => 24_000,
-            Tier::Thorough => 600_000,
+            Tier::Thorough => 3_000_000,
         }
     }
     fn required_labels(&self) -> Vec<&'static str> {
